@@ -86,14 +86,34 @@ def main(ctx, replay=None):
             ds = system_dataset(rng, exports, str(rng.choice(fillspec.SYSTEMS)), lattice=bool(n % 2)) if n % 3 == 0 else free_dataset(rng, extra_shear=int(rng.integers(0, 6)), lattice=bool(n % 2))
             ds.settings.update({"NT": int(rng.integers(3, 7)), "NTV": int(rng.integers(8, 16))})
             d = wd.sub(f"run{n}")
-            ds.fit_pressure_window(d)
-            try:
-                calc = run(ds.write(d))
-            except Exception as ex:
-                continue                                  # completion is C12/C05's business
-            r = records_of(calc, f"run{n}")
-            ctx.count({"run": n, "nv": ds.nv, "system": ds.system, "records": len(r)})
-            recs += r
+            lo, hi = ds.fit_pressure_window(d)
+            ds2 = None
+            if n % 2 == 0:
+                # a second calculation in the same process on the SAME pressure grid (P_MIN, DELTA_P, NTV) but another material and
+                # another volume_ratio: its conversion must use its own P(T,V) field.  The shared grid lies inside both ranges.
+                ds2 = copy.deepcopy(ds)
+                ds2.amp = ds.amp * 1.25
+                ds2.settings = dict(ds.settings, volume_ratio=1.3)
+                lo2, hi2 = ds2.fit_pressure_window(wd.sub(f"run{n}b"))
+                a, b = max(lo, lo2), min(hi, hi2)
+                if b - a > 0.3 * (hi - lo):
+                    ntv = int(ds.settings["NTV"])
+                    shared = {"P_MIN": round(a + 0.1 * (b - a), 3), "DELTA_P": round(0.8 * (b - a) / (ntv - 1), 4)}
+                    shared["DELTA_P_SAMPLE"] = shared["DELTA_P"]
+                    ds.settings.update(shared)
+                    ds2.settings.update(shared)
+                else:
+                    ds2 = None
+            for tag, dset in ((f"run{n}", ds), (f"run{n}b", ds2)):
+                if dset is None:
+                    continue
+                try:
+                    calc = run(dset.write(wd.sub(tag)))
+                except Exception as ex:
+                    continue                                  # completion is C12/C05's business
+                r = records_of(calc, tag)
+                ctx.count({"run": tag, "nv": dset.nv, "system": dset.system, "records": len(r), "pgrid": [dset.settings["P_MIN"], dset.settings["DELTA_P"]]})
+                recs += r
         shapes = [r for r in recs if r["kind"] == "shape"]
         for r in shapes[:3]:
             ctx.violation(f"{r['name']}: pressure-base array has shape {r['shape'][1]}, volume-base {r['shape'][0]}", r, {"clause": "shape", "name": r["name"]})
